@@ -84,6 +84,25 @@ def check_one(ctx, key: str, n: int, seed: int) -> str | None:
         if bad is not None:
             a, b = bad
             ctx.violation("not-monotone-nonincreasing", f"{key} (n={n}, seed={seed}): v({a}) = {v[a]!r} < v({b}) = {v[b]!r}", case)
+    # a complete game must say the same through every accessor (the env reads single values, the checks above read the table)
+    try:
+        from incomplete_cooperative.coalitions import Coalition
+        ctx.count("accessor_consistency_checks")
+        picks = list(range(1 << n)) if n <= 5 else [0, 1, (1 << n) - 1] + [ctx.rng.randrange(1 << n) for _ in range(12)]
+        single = [float(g.get_value(Coalition(m))) for m in picks]
+        some = [float(x) for x in g.get_values([Coalition(m) for m in picks])]
+        if single != [v[m] for m in picks] or some != [v[m] for m in picks]:
+            m = next(m for m, a, b in zip(picks, single, some) if a != v[m] or b != v[m])
+            ctx.violation("game-accessors-disagree", f"{key} (n={n}, seed={seed}): coalition {m}: get_values()[{m}] = {v[m]!r}, "
+                          f"get_value = {single[picks.index(m)]!r}, get_values([c]) = {some[picks.index(m)]!r}", case)
+        if hasattr(g, "get_lower_bounds") and hasattr(g, "are_values_known"):
+            lo_ = [float(x) for x in g.get_lower_bounds()]
+            up_ = [float(x) for x in g.get_upper_bounds()]
+            if lo_ != v or up_ != v or not bool(np.all(g.are_values_known())):
+                ctx.violation("game-accessors-disagree", f"{key} (n={n}, seed={seed}): not a complete game: lower/upper bounds or "
+                              f"known flags disagree with get_values()", case)
+    except Exception as exc:
+        ctx.violation("not-a-complete-game", f"{key}: reading single values raised {type(exc).__name__}: {exc}", case)
     d = digest(v)
     if not exempt_from_seeding(key):
         try:
